@@ -57,6 +57,17 @@ CHECKS = {
                      "extension of authentic messages, the same plaintext under other keys, reflection - each injected "
                      "through main_loop on a fork; the endpoint's complete snapshot (state, counters, CHILD_SAs, timers, "
                      "cached response, kernel SAD, netlink log) must be unchanged and nothing may be emitted."),
+    'C17': dict(level='fault_enumeration', technique="exhaustive injection of a hostile corpus and of send / netlink "
+                "failures at every position of a legitimate session run through the real main_loop", engine='world-explorer',
+                text="Before every step of a legitimate two-endpoint session (initial exchanges, new CHILD, CHILD rekey, "
+                     "IKE rekey, delete, DPD) each hostile item is injected through main_loop on a copy of the world: "
+                     "short / structurally broken / oversized-count datagrams to live and unknown SPIs and as "
+                     "IKE_SA_INIT requests, from the peer's and from a stranger's address, bit-flipped authentic "
+                     "messages, well-protected but malformed messages from the authenticated peer, odd kernel events "
+                     "and truncated netlink frames; sendto (gaierror / ENETUNREACH / EPERM) and netlink failures at "
+                     "every call index. Oracle: main_loop is left only by the harness's stop exception, executed lines "
+                     "per iteration stay under a cap, and the session completes (or, where the peer itself misbehaved, "
+                     "a fresh negotiation succeeds after the time-outs)."),
 }
 
 # filled in as checks are built; anything in ALL but not in CHECKS is listed under not_applicable
